@@ -1,4 +1,4 @@
-import BbRe.Lemmas.ProtoStoreFrame
+import BbRe.Lemmas.ProtoStoreDrain
 /-!
 # C07 (c) — persistence of size-class statistics
 
@@ -136,6 +136,12 @@ theorem get_sees_latest (ops : List Op) (g : Nat) (r : GetRec) :
   rw [← hd]
   exact inMap_of_useCount_pos s _ hg h hpos
 
+/-- Non-vacuity of `get_sees_latest`: a `Get` of digest 0 that starts after update 1
+was released and before it is written has `need = 1`. -/
+example : ∃ r, lookupG (run repoConfig
+      [.getBegin 0 0, .readDone 0 true, .getEnd 0, .release 0 true, .getBegin 1 0]).gets 1 = some r ∧
+    r.need = 1 ∧ r.existing = some 0 := ⟨_, rfl, rfl, rfl⟩
+
 /-- What `need` is: the record created by `getBegin g d` carries the digest, the
 handle found in the map, and `need = latest d` iff the backing store does not hold
 the latest update of `d` at that moment. -/
@@ -190,5 +196,72 @@ theorem no_lost_update_counterexample_unguarded :
 /-- The same history is harmless for the code in the tree. -/
 example : let s := run repoConfig unguardedWitness
     s.store 0 = 1 ∧ s.latest 0 = 2 ∧ s.map 0 = some 2 ∧ s.msg 2 = 2 ∧ s.useCount 2 = 1 := by decide
+
+/-! ### Eventually written -/
+
+/-- **Draining writes the latest version of every digest.**  Take any reachable state
+in which all clients have released their handles and no `Get` is in flight, and any
+digest `e` without a handle.  Then `n` further whole `Get(e)`/`Release` pairs whose
+backing calls succeed (`drain`; each dequeues up to three handles, as `Get` does),
+with `3·n ≥` the length of the write queue, leave an empty write queue, an empty map,
+and a backing store that holds, for EVERY digest, the last update that any client
+released dirty. -/
+theorem drain_writes_latest (ops : List Op) (e : Nat) (gs : List Nat) :
+    let s := run repoConfig ops
+    quiescent s → s.map e = none → s.queue.length ≤ 3 * gs.length →
+    (∀ d, (drain repoConfig e s gs).store d = s.latest d) ∧
+    (drain repoConfig e s gs).queue = [] ∧ (∀ d, (drain repoConfig e s gs).map d = none) := by
+  intro s hqu hme hlen
+  have := drain_all e gs s (qinv_run repoConfig ops) (ginv_run ops) hqu hme hlen
+  exact ⟨this.2.2, this.1, this.2.1⟩
+
+/-- Non-vacuity of `drain_writes_latest`: after the `legacyWitness` history (run on the
+code in the tree) and the clean release of the handle `Get` 1 returned, the state is
+quiescent with a non-empty queue, and one drain `Get` of digest 7 writes update 2. -/
+example : let s := run repoConfig (legacyWitness ++ [.readDone 1 true, .getEnd 1, .release 1 false])
+    s.gets = [] ∧ s.held 0 = 0 ∧ s.held 1 = 0 ∧ s.queue = [0] ∧ s.store 0 = 1 ∧ s.latest 0 = 2 ∧
+    (drain repoConfig 7 s [50]).store 0 = 2 := by decide
+
+/-- One step of draining makes progress whatever the queue length is: the state stays
+quiescent, `e` still has no handle, no update is lost, and `min 3 (queue length)`
+handles leave the queue. -/
+theorem drain_progress (ops : List Op) (g e : Nat) :
+    let s := run repoConfig ops
+    quiescent s → s.map e = none →
+    quiescent (fullGetRelease repoConfig s g e) ∧ (fullGetRelease repoConfig s g e).map e = none ∧
+    (fullGetRelease repoConfig s g e).latest = s.latest ∧
+    (fullGetRelease repoConfig s g e).queue.length = s.queue.length - min 3 s.queue.length := by
+  intro s hqu hme
+  have := drain_step s g e (qinv_run repoConfig ops) (ginv_run ops) hqu hme
+  exact ⟨this.2.2.1, this.2.2.2.1, this.2.2.2.2.1, this.2.2.2.2.2⟩
+
+/-- In a quiescent state every handle that is still in the map is queued for writing
+(nothing is forgotten outside the queue). -/
+theorem quiescent_all_queued (ops : List Op) (d h : Nat) :
+    let s := run repoConfig ops
+    quiescent s → s.map d = some h → s.idx h ≠ none := by
+  intro s hqu hm
+  exact quiescent_queued s (qinv_run repoConfig ops) (ginv_run ops) hqu d h hm
+
+/-- **A failed Put re-queues.**  If the Put of an unused handle fails without storing
+anything, the handle is appended to the write queue again and keeps its place in the
+map and its message (a handle that is in use is re-queued by its last `Release`:
+`store_inv_handles`). -/
+theorem put_failure_requeues (ops : List Op) (g h : Nat) (r : GetRec) (w : Write) :
+    let s := run repoConfig ops
+    lookupG s.gets g = some r → findWrite r.writes h = some w → s.useCount h = 0 →
+    (putDone repoConfig s g h .err).idx h = some s.queue.length ∧
+    (putDone repoConfig s g h .err).queue = s.queue ++ [h] ∧
+    (putDone repoConfig s g h .err).map = s.map ∧
+    (putDone repoConfig s g h .err).msg = s.msg ∧
+    (putDone repoConfig s g h .err).store = s.store := by
+  intro s hl hf hu
+  exact putDone_err_requeues s g h r w (ginv_run ops) hl hf hu
+
+/-- Non-vacuity of `put_failure_requeues`. -/
+example : let s := run repoConfig [.getBegin 0 0, .readDone 0 true, .getEnd 0, .release 0 true, .getBegin 1 1]
+    (∃ r w, lookupG s.gets 1 = some r ∧ findWrite r.writes 0 = some w) ∧ s.useCount 0 = 0 ∧
+    (putDone repoConfig s 1 0 .err).queue = [0] := by
+  refine ⟨⟨_, _, rfl, rfl⟩, by decide, by decide⟩
 
 end BbRe.Properties.C07Store
